@@ -22,7 +22,7 @@ def load():
 
 
 def _m(pat, val):
-    if pat == "*" or pat == val:
+    if pat == "*" or pat == val or val == "*":
         return True
     if isinstance(pat, str) and pat.endswith("*") and isinstance(val, str):
         return val.startswith(pat[:-1])
